@@ -273,3 +273,9 @@ PLANS["C16"].proofs += [p for p in _EQV if "_out_" not in p[1]]
 for _pid in ("C02", "C03", "C05", "C15", "C17", "C18"):
     if PLANS[_pid].bounded is None:
         PLANS[_pid].bounded = ("bounded/c%s.py" % _pid[1:], [], [])
+
+PLANS["C09"].level = "proof"
+PLANS["C09"].explanation = ("proved: Equivalence.convert + every _convert branch (refusal for arbitrary dimensions; formula, "
+                            "dimension, frames for 7 equivalences in copy / in-place / quantity / integer forms) through the "
+                            "__array_ufunc__ contracts of the configurations used; round trips and compositions are lemmas; "
+                            "bounded: lorentz / effective_temperature values, entry points, float residuals")
